@@ -46,7 +46,7 @@ CHECKS = {
             "The no-silent-skip oracle uses the harness's own notion of blank/comment/directive lines.",
             "DESIGN.md section 4, C10"),
     "C14": ("property-based concurrency testing under the Go race detector, repeatability and copy-isolation relations (rapid)",
-            "Generated job sets run sequentially and then on 1/2/8/32 goroutines in a -race build: results must be equal and the detector silent; caller-side mutation after AddWarrior must not show through; further sub-properties: several simulators used in turns against their own models (interleaved), repeated assembly of one text (repeat), a few assemblies compared with a fresh process (history independence).",
+            "Generated job sets run sequentially and then on 1/2/8/32 goroutines in a -race build: results must be equal and the detector silent; caller-side mutation after AddWarrior must not show through; further sub-properties: several simulators used in turns against their own models (interleaved), repeated assembly of one text (repeat), generated histories of accepted and refused assemblies under related configurations in one worker process compared step by step with fresh processes (history), every assembly result overwritten by the caller after use.",
             "Schedules are those the Go scheduler produces; the race detector only sees accesses that execute.",
             "DESIGN.md section 4, C14"),
     "C16": ("round-trip property testing: LoadCode listing read back by an independent listing reader (rapid)",
@@ -54,7 +54,7 @@ CHECKS = {
             "Trusts harness/rc ReadListing.",
             "DESIGN.md section 4, C16"),
     "C17": ("property-based differential testing of the built CLI against the reference MARS (rapid)",
-            "Generated warrior files and flag vectors; stdout/exit status of a freshly built cmd/gmars compared with tallies computed by the reference battle under the documented configuration (README preset table); counting invariants for random placement.",
+            "Generated warrior files and flag vectors; stdout/exit status of a freshly built cmd/gmars compared with tallies computed by the reference battle under the documented configuration (README preset table); counting invariants for random placement; families include a second warrior loaded on top of the first.",
             "Expected preset values come from the README table with limits equal to the core size.",
             "DESIGN.md section 4, C17"),
     "C04": ("property-based invariant checking over fuzzed configurations and hostile battles (rapid)",
